@@ -480,7 +480,14 @@ func (r *vC08LRig) waitCall(want byte) (string, bool) {
 	}
 }
 
+var vC08LSeenSig = map[string]bool{}
+
+// one line per signature (the first input that shows it)
 func vC08LDirect(sig string, detail string, c vC08LCase) {
+	if vC08LSeenSig[sig] {
+		return
+	}
+	vC08LSeenSig[sig] = true
 	b, _ := json.Marshal(map[string]interface{}{"signature": sig, "detail": detail, "case": map[string]interface{}{"input": c}})
 	fmt.Printf("VERIF-DIRECT-VIOLATION %s\n", b)
 }
